@@ -48,6 +48,7 @@ Record caseElem : Type := {
   ce_twin : option conv_obs;          (* the same receiver on the canonical re-partition of the same items *)
   ce_reprint : option string;         (* Fields<syn::Field>::try_from(..).to_token_stream() *)
   ce_fields_toks : option string;     (* the original fields' tokens *)
+  ce_sub : option (list conv_obs);    (* the body's element converter run on every field / variant on its own *)
 }.
 
 Definition model_elem (c : caseElem) : conv_obs :=
@@ -289,8 +290,99 @@ Definition reprint_ok (c : caseElem) : bool :=
 Definition has_post (c : caseElem) : bool :=
   match case_base c with Some b => match ci_post (ob_c b) with Some _ => true | None => false end | None => false end.
 
+(** Is the receiver's own attribute layer free of errors (so that the body is converted at all)?
+    The one place where the reading of C16 consults the model: it decides WHICH inputs the
+    body-conversion clauses apply to, not what they demand. *)
+Definition attr_layer_clean (c : caseElem) : bool :=
+  let pf := pf_of (ce_pf c) in
+  let rp := reparse_of (ce_or c) in
+  let ra := reparse_arr_of (ce_or c) in
+  let rq := reparse_preds_of (ce_or c) in
+  let fn := interp_fn_lib (ce_consts c) in
+  let clean (b : obase) (attrs : list attribute) (shape_err : option err) :=
+    match outer_state pf rp ra rq (ce_sugg c) (sim_of (ce_sim c)) interp_with_lib fn b
+                      (extract pf rp ra rq (ce_sugg c) (sim_of (ce_sim c)) interp_with_lib fn interp_attrs_lib b attrs) shape_err with
+    | Ok (st, _) => match ps_errs st with [] => true | _ => false end
+    | _ => false
+    end in
+  match ce_recv c, ce_input c with
+  | ERDerive r, EIDerive d =>
+      clean (dr_b r) (din_attrs d)
+            (match dr_supports r with
+             | Some sset => match validate_body sset (body_shape (din_body d)) with Err e => Some e | _ => None end
+             | None => None
+             end)
+      && match dr_generics r with Some (GcMirror _) | Some (GcWithOrig (GcMirror _)) => false | _ => true end
+  | ERVariant (VcRecv b _ _ sup), EIVariant ve =>
+      clean b (ve_attrs ve)
+            (match sup with
+             | Some ds => match ss_check (ds_to_set ds) (shape_of (ve_style ve) (List.length (ve_fields ve))) with Err e => Some e | _ => None end
+             | None => None
+             end)
+  | _, _ => false
+  end.
+
+(** names under which the failures of the body's elements are located (named fields only) *)
+Definition sub_names (c : caseElem) : list (option string) :=
+  match ce_input c with
+  | EIDerive d =>
+      match din_body d with
+      | DStruct StNamed fs => map fe_ident fs
+      | DStruct _ fs => map (fun _ => None) fs
+      | DEnum vs => map (fun _ => None) vs
+      | DUnion => []
+      end
+  | EIVariant ve =>
+      match ve_style ve with StNamed => map fe_ident (ve_fields ve) | _ => map (fun _ => None) (ve_fields ve) end
+  | _ => []
+  end.
+
+Definition sub_err_leaves (subs : list conv_obs) (names : list (option string))
+  : list (string * option string) :=
+  flat_map (fun sn : conv_obs * option string =>
+              match fst sn with
+              | CErr o => map (fun l : string * option string * option span =>
+                                 (fst (fst l), join_locs (snd sn) (snd (fst l)))) (obs_leaves None None o)
+              | _ => []
+              end) (combine subs names).
+
+Definition leaf2_eqb (a b : string * option string) : bool :=
+  str_eqb (fst a) (fst b) && option_eqb str_eqb (snd a) (snd b).
+
+(** "Body conversion fails exactly when some field or variant fails (all such failures are
+    reported, named fields located by their name) or the element is a union": evaluated on the
+    implementation's own per-element outcomes. *)
+Definition body_failures_ok (c : caseElem) : bool :=
+  match ce_sub c with
+  | None => true
+  | Some subs =>
+      if negb (attr_layer_clean c) then true
+      else if existsb (fun s => match s with CPanic _ => true | _ => false end) subs then true
+      else
+        let want := sub_err_leaves subs (sub_names c) in
+        match want, ce_obs c with
+        | [], COk _ => true
+        | [], CErr _ => false                      (* no element failed, yet the body conversion did *)
+        | _ :: _, CErr o =>
+            let got := map (fun l : string * option string * option span => (fst (fst l), snd (fst l))) (obs_leaves None None o) in
+            list_eqb leaf2_eqb got want            (* all failures, in order, nothing else *)
+        | _ :: _, COk _ => has_post c              (* an element failed but the conversion succeeded *)
+        | _, _ => true
+        end
+  end.
+
+Definition union_is_error (c : caseElem) : bool :=
+  match ce_recv c, ce_input c with
+  | ERDerive r, EIDerive d =>
+      match dr_data r, din_body d, ce_obs c with
+      | Some (DcData _ _), DUnion, COk _ => false
+      | _, _, _ => true
+      end
+  | _, _ => true
+  end.
+
 Definition holds16 (c : caseElem) : bool :=
-  reprint_ok c
+  reprint_ok c && union_is_error c && body_failures_ok c
   && match ce_obs c with
      | COk v =>
          if has_post c then true
